@@ -4,18 +4,28 @@ use std::path::PathBuf;
 
 use serde_json::{json, Value};
 
-// c13tree {files:[[path,content],..], main_path?:[..], target?}
+// c13tree {files:[[path,content],..], main_path?:[..], database?:[..], target?}   (path: string or array of bytes)
 //   multi-file project through the public tree API: SourceTree::new + prql_to_pl_tree + pl_to_rq_tree
 //   + rq_to_sql; errors of every stage are composed against the tree (ErrorMessages::composed),
 //   exactly what the CLI does.  Answer: {ok:sql} | {err:[..], stage} ; plus "ids": {source_id: path}
 //   (SourceTree::get_path over 0..n+2), so the check can name the file a span refers to.
+// a path is a JSON string, or an array of bytes (for paths that are not UTF-8)
+fn path_of(v: &Value) -> Option<PathBuf> {
+    if let Some(s) = v.as_str() {
+        return Some(PathBuf::from(s));
+    }
+    use std::os::unix::ffi::OsStringExt;
+    let bytes: Vec<u8> = v.as_array()?.iter().filter_map(|b| b.as_u64().map(|b| b as u8)).collect();
+    Some(PathBuf::from(std::ffi::OsString::from_vec(bytes)))
+}
+
 fn cmd_tree(req: &Value) -> Value {
     let files: Vec<(PathBuf, String)> = match req.get("files") {
         Some(Value::Array(a)) => a
             .iter()
             .filter_map(|p| {
                 let p = p.as_array()?;
-                Some((PathBuf::from(p.first()?.as_str()?), p.get(1)?.as_str()?.to_string()))
+                Some((path_of(p.first()?)?, p.get(1)?.as_str()?.to_string()))
             })
             .collect(),
         _ => vec![],
@@ -36,11 +46,16 @@ fn cmd_tree(req: &Value) -> Value {
         Ok(o) => o,
         Err(v) => return v,
     };
+    // database module path: `default_db` (what compile and the CLI use) unless the request names another one
+    let database: Vec<String> = match req.get("database") {
+        Some(Value::Array(a)) => a.iter().filter_map(|x| x.as_str().map(|s| s.to_string())).collect(),
+        _ => vec![prqlc::semantic::NS_DEFAULT_DB.to_string()],
+    };
     let mut stage = "parse";
     let r = prqlc::prql_to_pl_tree(&tree)
         .and_then(|pl| {
             stage = "resolve";
-            prqlc::pl_to_rq_tree(pl, &main_path, &[prqlc::semantic::NS_DEFAULT_DB.to_string()]).map_err(|e| e.composed(&tree))
+            prqlc::pl_to_rq_tree(pl, &main_path, &database).map_err(|e| e.composed(&tree))
         })
         .and_then(|rq| {
             stage = "sql";
@@ -86,7 +101,7 @@ fn cmd_compose(req: &Value) -> Value {
             .iter()
             .filter_map(|p| {
                 let p = p.as_array()?;
-                Some((PathBuf::from(p.first()?.as_str()?), p.get(1)?.as_str()?.to_string()))
+                Some((path_of(p.first()?)?, p.get(1)?.as_str()?.to_string()))
             })
             .collect(),
         _ => vec![],
